@@ -253,12 +253,38 @@ def stdRadicand (m2 m : ℚ) : ℚ :=
   let v := KernelsMcCost.stdVar m2 m 0
   if KernelsMcCost.stdVarTiny m2 m v then 0 else v
 
-/-- … is the model's `varRaster` on the two mean rasters -/
+theorem sumZ_nonneg' (g : Int → ℚ) (hg : ∀ k, 0 ≤ g k) (lo : Int) (n : Nat) : 0 ≤ sumZ (0 : ℚ) g lo n := by
+  induction n with
+  | zero => simp [sumZ]
+  | succ n ih => rw [sumZ]; exact add_nonneg ih (hg _)
+
+/-- prefix sums of a non-negative sequence grow -/
+theorem sumZ_prefix_mono (g : Int → ℚ) (hg : ∀ k, 0 ≤ g k) (n m : Nat) (h : n ≤ m) :
+    sumZ (0 : ℚ) g 0 n ≤ sumZ (0 : ℚ) g 0 m := by
+  induction m, h using Nat.le_induction with
+  | base => exact le_refl _
+  | succ m _ ih => rw [sumZ]; exact le_trans ih (le_add_of_nonneg_right (hg _))
+
+/-- the mean raster of a non-negative raster is non-negative, at EVERY index (also the ones numpy never forms) -/
+theorem meanRaster_nonneg (w : Nat) (g : Int → Int → ℚ) (hg : ∀ a b, 0 ≤ g a b) (i j : Int) : 0 ≤ meanRaster w g i j := by
+  unfold meanRaster
+  simp only
+  have hd : ∀ c : Int, 0 ≤ sumZ (0 : ℚ) (fun i' => g i' c) 0 (i + w).toNat - sumZ (0 : ℚ) (fun i' => g i' c) 0 i.toNat := by
+    intro c
+    exact sub_nonneg.mpr (sumZ_prefix_mono _ (fun k => hg k c) _ _ (by omega))
+  have h2 := sumZ_prefix_mono _ hd j.toNat (j + w).toNat (by omega)
+  exact div_nonneg (sub_nonneg.mpr h2) (by positivity)
+
+/-- … is the model's `varRaster` on the two mean rasters.  `E[x²] ≥ 0`, so the statement holds whether or not the source
+    takes `abs` of `mean_power_two` -/
 theorem stdRadicand_eq_model (w : Nat) (f : Int → Int → ℚ) (i j : Int) :
     varRaster w f i j = stdRadicand (meanRaster w (fun r c => f r c * f r c) i j) (meanRaster w f i j) := by
+  have hnn := meanRaster_nonneg w (fun r c => f r c * f r c) (fun a b => mul_self_nonneg _) i j
   unfold varRaster stdRadicand KernelsMcCost.stdVar KernelsMcCost.stdVarTiny
-  simp only [rpow_two, rabs_eq, tiny, decide_eq_true_eq]
-  rfl
+  have habs : ratAbs (meanRaster w (fun r c => f r c * f r c) i j) = meanRaster w (fun r c => f r c * f r c) i j := by
+    unfold ratAbs; rw [if_neg (not_lt.mpr hnn)]
+  have habs' : rabs (meanRaster w (fun r c => f r c * f r c) i j) = meanRaster w (fun r c => f r c * f r c) i j := habs
+  simp only [rpow_two, habs, habs', tiny, decide_eq_true_eq]
 
 /-- a cell of the model's zncc plane that is computed, written with the regenerated covariance and zero-variance rule
     (`stdL`, `stdR` any non-negative roots of the two radicands — no root is taken in Lean) -/
